@@ -82,12 +82,12 @@ func main() {
 				c.Violation(map[string]string{"kind": "no-codec", "type": dt.Code().String()}, fmt.Sprintf("NewCodec(%v) fails: %v", dt, err), cql.TypeName(dt))
 				return
 			}
-			for _, m := range []cql.Mode{cql.Plain, cql.Ptr, cql.Iface} {
+			for _, m := range cql.Modes() {
 				gt, ok := cql.GoType(dt, m)
 				if !ok {
 					continue
 				}
-				nulls := m != cql.Plain && v != gen.V2
+				nulls := m.Nullable() && v != gen.V2
 				vals := cql.Values(dt, 3, nulls)
 				var pf reflect.Value
 				for k := len(vals) - 1; k >= 0 && !pf.IsValid(); k-- {
